@@ -96,22 +96,22 @@ class Ref(object):
             if l['inplace']:
                 self.bufs[self.obj[n][0]] = out
             else:
-                self.obj['Z'] = [self.fresh(out), self.obj[n][1]]
+                self.obj[l.get('dst', 'Z')] = [self.fresh(out), self.obj[n][1]]
             return ''
         if act == 'Dot':
             if not self.space_ok(self.obj[n][1], self.obj[l['rhs']][1]):
                 return 'AssertionError'
             a, b = self.data(n), self.data(l['rhs'])
             out = np.array([a[i].dot(b[i]) for i in range(self.L)])
-            self.obj[n if l['inplace'] else 'Z'] = [self.fresh(out), self.obj[n][1]]
+            self.obj[n if l['inplace'] else l.get('dst', 'Z')] = [self.fresh(out), self.obj[n][1]]
             return ''
         if act == 'Invert':
             a = self.data(n)
             out = np.array([np.linalg.inv(a[i]) for i in range(self.L)])
-            self.obj[n if l['inplace'] else 'Z'] = [self.fresh(out), self.obj[n][1]]
+            self.obj[n if l['inplace'] else l.get('dst', 'Z')] = [self.fresh(out), self.obj[n][1]]
             return ''
         if act == 'GetCopy':
-            self.obj['Z'] = [self.fresh(self.data(n).copy()), self.obj[n][1]]
+            self.obj[l.get('dst', 'Z')] = [self.fresh(self.data(n).copy()), self.obj[n][1]]
             return ''
         if act == 'Wrap':
             self.obj['Z'] = [self.obj[n][0], self.obj[n][1]]
@@ -211,6 +211,7 @@ class MAAdapter(Adapter):
         act = l['act']
         n = l.get('lhs')
         a = w[n]
+        dst = l.get('dst', 'Z')          # the name an out-of-place result is bound to
         obs = {'raises': ''}
         if self.par:
             # type indices of the rank-2 skeleton are folded into the concrete rank
@@ -247,7 +248,7 @@ class MAAdapter(Adapter):
                     w[n] = a
                 else:
                     z = {'add': lambda: a + b, 'sub': lambda: a - b, 'mul': lambda: a * b, 'div': lambda: a / b}[op]()
-                    w['Z'] = z
+                    w[dst] = z
             elif act == 'Dot':
                 b = w[l['rhs']]
                 if l['operator']:
@@ -255,13 +256,13 @@ class MAAdapter(Adapter):
                         a @= b
                         w[n] = a
                     else:
-                        w['Z'] = a @ b
+                        w[dst] = a @ b
                 else:
                     if l['inplace']:
                         r = a.dot(b, inplace=True)
                         obs['returns_self'] = r is a
                     else:
-                        w['Z'] = a.dot(b)
+                        w[dst] = a.dot(b)
             elif act == 'Invert':
                 if l['inplace']:
                     r = a.invert(inplace=True)
@@ -269,10 +270,10 @@ class MAAdapter(Adapter):
                     prod_a = MatrixArray(length=w['L'], rank=w['R'], data=before[n].copy(), space=a.space, types=a.types)
                     obs['product'] = prod_a.dot(a).data
                 else:
-                    w['Z'] = a.invert()
-                    obs['product'] = a.dot(w['Z']).data
+                    w[dst] = a.invert()
+                    obs['product'] = a.dot(w[dst]).data
             elif act == 'GetCopy':
-                w['Z'] = a.get_copy()
+                w[dst] = a.get_copy()
             elif act == 'Wrap':
                 w['Z'] = MatrixArray(length=w['L'], rank=w['R'], data=a.data, space=a.space, types=a.types)
             elif act == 'SetItem':
@@ -317,9 +318,10 @@ class MAAdapter(Adapter):
         obs['ref_raises'] = w['ref'].step(l)
         # the property leaves the result's space flag open: impose the specification's choice so that
         # later SpaceRule outcomes are determined
-        if obs['raises'] == '' and w['Z'] is not None and act in ('Bin', 'Dot', 'Invert', 'GetCopy', 'Wrap'):
+        res_name = 'Z' if act == 'Wrap' else dst
+        if obs['raises'] == '' and w[res_name] is not None and act in ('Bin', 'Dot', 'Invert', 'GetCopy', 'Wrap'):
             if not l.get('inplace', False):
-                w['Z'].space = self.space(w['ref'].obj['Z'][1])
+                w[res_name].space = self.space(w['ref'].obj[res_name][1])
         return obs
 
     def project(self, w):
@@ -468,6 +470,11 @@ def run(ctx):
     require_clean(res, 'MatrixArray accessors')
     ctx.add_tlc('accessors L=2 R=2 depth 2', res, exhaustive=True)
     replay_graph(ctx, res, 2, 2, 'replay.accessors', 2, parametric=[(1, 3), (3, 4)] if not thorough else [(1, 1), (1, 3), (3, 4), (4, 2), (5, 16)])
+    # several results of the same left operand alive at once (bound to Z and to Y)
+    res = run_tlc('MC_MatrixArray', cfg(1, 2, 3, 'RealOnly', 'DstNext'), ctx.tmp, seed=ctx.seed)
+    require_clean(res, 'MatrixArray result names')
+    ctx.add_tlc('results bound to Y / Z, L=1 R=2 depth 3', res, exhaustive=True)
+    replay_graph(ctx, res, 1, 2, 'replay.dst', 3, parametric=[(3, 4)])
     # space machine: all 3x3 flag pairs x operators
     res = run_tlc('MC_MatrixArray', cfg(1, 2, 1, 'AllSpaces', 'SpaceNext'), ctx.tmp, seed=ctx.seed)
     require_clean(res, 'MatrixArray spaces')
